@@ -154,8 +154,12 @@ def gen_cases(tier, seed):
             opts += ["-w", r.choice(["abc", "-3", "1.5", ""])]
         elif cls == "dangling-source":
             spec.append({"p": "dang", "k": "l", "target": "nowhere-to-be-found"})
-            srcs.insert(pos, "dang")
+            # (named literally, or selected by a pattern: a pattern matches the link itself, whether or not it leads anywhere)
+            how = r.choice(["plain", "plain", "glob-literal", "glob-pattern", "glob-pattern"])
+            srcs.insert(pos, "dan[g]" if how == "glob-pattern" else "dang")
             opts.append("-L")
+            if how != "plain":
+                opts.append("--glob")
         elif cls == "dirlink-without-r":
             spec += [{"p": "adir", "k": "d"}, {"p": "adir/x", "k": "f", "size": 4, "seed": 2, "segs": None}, {"p": "ldir", "k": "l", "target": "adir"}]
             srcs = [s for s in srcs if not any(e["p"] == s and e["k"] == "d" for e in spec)]
@@ -189,7 +193,7 @@ def gen_cases(tier, seed):
             noise = []
         wopt = [] if cls == "bad-workers" else ["-w", str(r.choice([0, 1, 4]))]
         args = drv + wopt + opts + noise + srcs + ([dest] if dest is not None else [])
-        yield {"spec": spec, "pre": pre, "args": args, "driver": driver, "cls": cls, "pos": pos if cls in ("missing-source", "dir-without-r", "dir-onto-file-mapped", "bad-glob") else -1,
+        yield {"spec": spec, "pre": pre, "args": args, "driver": driver, "cls": cls, "pos": pos if cls in ("missing-source", "dir-without-r", "dir-onto-file-mapped", "bad-glob", "dangling-source") else -1,
                "nsrc": len(srcs), "dstate": dstate, "fs": "ext4"}
 
 
